@@ -325,3 +325,44 @@ func VerifHarness_C09_LeapDayAcrossCenturies() {
 	}
 	verifrt.Reach("end")
 }
+
+// C09: a day is a calendar day and a week seven of them for every amount a date can move by - far beyond what a
+// time.Duration holds (106751 days): Date and DateTime plus / minus n days or weeks lands exactly n (7n) days away,
+// for every n that keeps the year within 1..9999.
+func VerifHarness_C09_LargeDayAndWeekAmounts() {
+	weeks := verifrt.NondetBool("weeks")
+	n := verifrt.NondetIntRange("n", -700000, 2900000)
+	unit, days := "days", int64(n)
+	if weeks {
+		verifrt.Assume(n >= -100000 && n <= 414000)
+		unit, days = "weeks", 7*int64(n)
+	}
+	q := verifQty(n, unit)
+	sub := verifrt.NondetBool("sub")
+	if sub {
+		days = -days
+		verifrt.Assume(days >= -700000 && days <= 2900000)
+	}
+	if verifrt.NondetBool("dateTime") {
+		x := MustParseDateTime("2020-01-01T10:00:00Z")
+		var got DateTime
+		var err error
+		if sub {
+			got, err = x.Sub(q)
+		} else {
+			got, err = x.Add(q)
+		}
+		verifrt.Assert(err == nil && got.dateTime.Unix() == x.dateTime.Unix()+days*86400, "datetime-moves-by-exactly-that-many-calendar-days")
+	} else {
+		x := MustParseDate("2020-01-01")
+		var got Date
+		var err error
+		if sub {
+			got, err = x.Sub(q)
+		} else {
+			got, err = x.Add(q)
+		}
+		verifrt.Assert(err == nil && got.date.Unix() == x.date.Unix()+days*86400, "date-moves-by-exactly-that-many-calendar-days")
+	}
+	verifrt.Reach("end")
+}
